@@ -1819,6 +1819,394 @@ def check_iter_steps(ck, tree):
                     ck.states += n
 
 
+# ------------------------------------------------------------------ copy / assignment / swap carry the whole tree state
+# STATE-TRANSFER.  A field of BTree that no member other than constructors, operator= and swap may write is *configuration*
+# (closed world over the instantiated members: today the key order object and the allocator): its value is fixed by
+# construction or transfer only, every query consults it, so a copy must take it from the source on every path and a swap
+# must exchange it.  The three transfer functions are evaluated over a field-provenance domain (mine.F / other.F / fresh);
+# all paths are enumerated; a construct that is not understood and may touch the state is "cannot decide".
+_TRANSFER_FNS = ("operator=", "swap")
+# frozen: single-argument constructors that only read their argument (allocator rebinding: allocator(const allocator<U>&))
+_READING_CTORS = ("std::allocator",)
+
+
+def _is_bt_field(z):
+    return z is not None and z["k"] == "MemberExpr" and z.get("owner") == BT and kids(z)
+
+
+def _access_is_read(fn, z):
+    """the occurrence z (a MemberExpr) cannot modify the object it denotes"""
+    cur = z
+    for _ in range(12):
+        if (cur.get("ty") or "").startswith("const "):
+            return True
+        p = fn.parent(cur)
+        if p is None:
+            return False
+        k = p["k"]
+        if k == "ImplicitCastExpr" and p.get("cast") == "LValueToRValue":
+            return True
+        if k == "MemberExpr" or k in ("ImplicitCastExpr", "CXXStaticCastExpr", "CStyleCastExpr", "CXXFunctionalCastExpr"):
+            cur = p
+            continue
+        if "callee" in p and kids(p) and kids(p)[0] is cur and (p.get("member_call") or p.get("op") == "()") and p["callee"].get("const"):
+            return True
+        if k == "CXXConstructExpr" and len(kids(p)) == 1 and ir._bare(p.get("ty")) == ir._bare(cur.get("ty")):
+            return True          # copy construction from it (std::move would sit in between)
+        if k == "CXXConstructExpr" and len(kids(p)) == 1 and (p.get("callee") or {}).get("record") in _READING_CTORS:
+            return True
+        return False
+    return False
+
+
+def _may_write(tree, fn, memo, stack=()):
+    """names of BTree fields the member function may write (directly or through members it calls), closed world"""
+    if fn.did in memo:
+        return memo[fn.did]
+    if fn.did in stack:
+        return set()
+    out = set()
+    for i in fn.inits:
+        if i.get("field"):
+            out.add(i["field"])
+    for z in fn.nodes():
+        if _is_bt_field(z) and not _access_is_read(fn, z):
+            out.add(z["member"])
+        if "callee" in z and z["callee"].get("record") == BT and not z["callee"].get("const"):
+            g = tree.by_did.get(z["callee"].get("did"))
+            if g is None or (g.body is None and g.kind != "ctor"):
+                if z["callee"]["name"] in ("BTree", "~BTree"):
+                    continue
+                raise dtable.Undecidable("%s: %s calls BTree::%s(), whose body is not available" % (fn.nloc(z), fn.name, z["callee"]["name"]))
+            out |= _may_write(tree, g, memo, stack + (fn.did,))
+    if not stack:
+        memo[fn.did] = out
+    return out
+
+
+def _is_copy_ctor(fn):
+    return fn.kind == "ctor" and fn.record == BT and len(fn.params) == 1 and ir._bare(fn.params[0].get("ty")).startswith(BT + "<")
+
+
+def _accessor_field(tree, call):
+    """F if the call is a const BTree member without arguments whose body is `return F;`"""
+    c = call.get("callee") or {}
+    if c.get("record") != BT or not c.get("const") or len(kids(call)) != 1:
+        return None
+    g = tree.by_did.get(c.get("did"))
+    if g is None or g.body is None or g.params:
+        return None
+    st = [s for s in kids(g.body) if s is not None and s["k"] != "NullStmt"]
+    if len(st) != 1 or st[0]["k"] != "ReturnStmt" or not kids(st[0]):
+        return None
+    return match.this_field(kids(st[0])[0])
+
+
+class _Transfer:
+    def __init__(self, tree, fn, fields, memo):
+        self.tree, self.fn, self.fields, self.memo = tree, fn, fields, memo
+        self.other = fn.params[0]["did"]
+        self.exits = []
+
+    # ---- objects
+    def obj(self, e):
+        """'this' / 'other' if the expression denotes one of the two trees"""
+        e = strip_casts(e)
+        if e is None:
+            return None
+        if e["k"] == "This":
+            return "this"
+        d = match.deref_of(e)
+        if d is not None and strip_casts(d)["k"] == "This":
+            return "this"
+        if ref_of(e) == self.other:
+            return "other"
+        return None
+
+    def loc(self, e):
+        e = strip_casts(e)
+        if _is_bt_field(e):
+            o = self.obj(kids(e)[0])
+            if o:
+                return (o, e["member"])
+            return None
+        d = ref_of(e)
+        if d is not None and d != self.other:
+            return ("var", d)
+        return None
+
+    def und(self, n, what):
+        raise dtable.Undecidable("%s: %s of BTree: %s: %s" % (self.fn.nloc(n), self.fn.name, what, dtable.describe(n)[:120]))
+
+    # ---- effects of something not interpreted precisely
+    def havoc(self, st, n, skip=()):
+        """an expression/statement that is not interpreted: the fields it may write become fresh; it must not touch configuration"""
+        for z in walk(n):
+            if z.get("id") in skip:
+                continue
+            if _is_bt_field(z) and not _access_is_read(self.fn, z):
+                top = z
+                o = self.obj(kids(z)[0])
+                if o is None or z["member"] in self.config:
+                    self.und(z, "a write to tree state that is not understood")
+                st[(o, z["member"])] = ("fresh",)
+            if "callee" in z:
+                c = z["callee"]
+                if c.get("record") == BT and z.get("member_call") and not c.get("const") and c["name"] not in ("BTree",):
+                    o = self.obj(kids(z)[0])
+                    g = self.tree.by_did.get(c.get("did"))
+                    if o != "this" or g is None:
+                        self.und(z, "a modifying member called on another tree")
+                    w = _may_write(self.tree, g, self.memo)
+                    if w & self.config:
+                        self.und(z, "a called member writes the configuration state %s" % sorted(w & self.config))
+                    for f in w:
+                        st[("this", f)] = ("fresh",)
+                elif c.get("record") != BT:
+                    # a foreign function handed one of the trees or a configuration field by mutable reference
+                    for a in kids(z):
+                        a0 = strip_casts(a)
+                        if a0 is None:
+                            continue
+                        if self.obj(a0) and not (a0.get("ty") or "").startswith("const ") and a0["k"] != "This" \
+                                and not (a.get("ty") or "").startswith("const "):
+                            self.und(z, "a tree is handed to a foreign function")
+
+    # ---- values
+    def val(self, st, e):
+        e0 = strip_casts(e)
+        if e0 is None:
+            return ("fresh",)
+        mv = match.call_named(e0, ("move", "forward"))
+        if mv is not None and (mv["callee"].get("qname") or "").startswith("std::") and len(kids(mv)) == 1:
+            return self.val(st, kids(mv)[0])
+        l = self.loc(e0)
+        if l is not None and l[0] in ("this", "other"):
+            return st.get(l, ("fresh",))
+        if l is not None:
+            return st.get(l, ("fresh",))
+        if "callee" in e0 and e0.get("member_call"):
+            f = _accessor_field(self.tree, e0)
+            o = self.obj(kids(e0)[0])
+            if f is not None and o:
+                return st.get((o, f), ("fresh",))
+        a = self.assign(st, e0)
+        if a is not None:
+            return a
+        self.havoc(st, e0)
+        return ("fresh",)
+
+    def assign(self, st, e):
+        """interprets e if it is an assignment or std::swap; returns the assigned value (or True), None if it is neither"""
+        b = match.binop(e, ("=",))
+        if b:
+            l = self.loc(b[1])
+            if l is None:
+                sub = strip_casts(b[1])
+                # a part of a field (stats_.leaves = ...): the field is no longer a copy of anything
+                base = sub
+                while base is not None and base["k"] == "MemberExpr" and not _is_bt_field(base):
+                    base = strip_casts(kids(base)[0]) if kids(base) else None
+                if _is_bt_field(base) and self.obj(kids(base)[0]) and base["member"] not in self.config:
+                    self.val(st, b[2])
+                    st[(self.obj(kids(base)[0]), base["member"])] = ("fresh",)
+                    return ("fresh",)
+                if any(_is_bt_field(z) for z in walk(b[1])):
+                    self.und(e, "assignment target not understood")
+                self.havoc(st, e)
+                return ("fresh",)
+            v = self.val(st, b[2])
+            st[l] = v
+            return v
+        e0 = strip_casts(e)
+        if e0 is not None and "callee" in e0 and e0["callee"].get("qname") == "std::swap" and len(kids(e0)) == 2:
+            la, lb = self.loc(kids(e0)[0]), self.loc(kids(e0)[1])
+            if la is None or lb is None:
+                if any(_is_bt_field(z) for z in walk(e0)):
+                    self.und(e0, "std::swap of something that is not a plain field")
+                return True
+            st[la], st[lb] = st.get(lb, ("fresh",)), st.get(la, ("fresh",))
+            return True
+        return None
+
+    # ---- statements
+    def self_guard(self, c):
+        b = match.binop(c, ("!=", "=="))
+        if not b:
+            return None
+
+        def side(x):
+            x = strip_casts(x)
+            if x is not None and x["k"] == "This":
+                return "this"
+            u = match.unop(x, ("&",))
+            if u and ref_of(u[1]) == self.other:
+                return "other"
+            return None
+        if {side(b[1]), side(b[2])} == {"this", "other"}:
+            return b[0] == "!="          # True: the then-branch is the distinct case
+        return None
+
+    def run(self, stmts, st, cont):
+        """executes the statement list on state st, then calls cont(st) for every path that falls through"""
+        if not stmts:
+            return cont(st)
+        s, rest = stmts[0], stmts[1:]
+        nxt = lambda st2: self.run(rest, st2, cont)
+        if s is None or s["k"] == "NullStmt":
+            return nxt(st)
+        k = s["k"]
+        if k == "CompoundStmt":
+            return self.run(list(kids(s)), st, nxt)
+        if k == "ReturnStmt":
+            if kids(s) and kids(s)[0] is not None:
+                self.val(st, kids(s)[0])
+            self.exits.append(st)
+            return
+        if k == "IfStmt" and not s.get("init") and not s.get("condvar") and len(kids(s)) >= 2:
+            c = kids(s)[0]
+            g = self.self_guard(c)
+            st = dict(st)
+            if g is None:
+                self.val(st, c)
+            cv = c.get("cval") if c is not None else None
+            for taken in (True, False):
+                if cv is not None and bool(cv) != taken:
+                    continue
+                st2 = dict(st)
+                st2["path"] = st["path"] + [("" if taken else "!") + "(" + dtable.describe(c)[:60] + ")"]
+                if g is not None and taken != g:
+                    st2["alias"] = True
+                br = kids(s)[1] if taken else (kids(s)[2] if len(kids(s)) > 2 else None)
+                self.run([br] if br is not None else [], st2, nxt)
+            return
+        if k == "DeclStmt":
+            st = dict(st)
+            for v in kids(s):
+                if v is None or v["k"] != "VarDecl":
+                    self.und(s, "declaration not understood")
+                ty = (v.get("ty") or "").rstrip()
+                init = kids(v)[0] if kids(v) else None
+                if init is not None and (ty.endswith("&") or ir._bare(ty) == ir._bare(self.fn.params[0].get("ty"))):
+                    # a reference may alias a field or a tree; a tree-typed local is a whole copy: neither is modelled
+                    if any(_is_bt_field(z) or z["k"] == "This" or ref_of(z) == self.other for z in walk(init)):
+                        self.und(s, "an alias or a copy of a tree or of tree state")
+                elif init is not None:
+                    # a value: harmless unless it is the address of a tree or of a piece of tree state
+                    i0 = strip_casts(init)
+                    if (i0 is not None and i0["k"] == "This") or any(
+                            z["k"] == "UnaryOperator" and z.get("op") == "&" and kids(z) and
+                            (self.obj(kids(z)[0]) or self.loc(kids(z)[0]) is not None and self.loc(kids(z)[0])[0] != "var")
+                            for z in walk(init)) or any(
+                            "callee" in z and (z["callee"].get("qname") or "") in ("std::addressof", "std::ref") for z in walk(init)):
+                        self.und(s, "the address of a tree or of tree state is kept")
+                st[("var", v["did"])] = self.val(st, init) if init is not None else ("fresh",)
+            return nxt(st)
+        if k in ("ForStmt", "WhileStmt", "DoStmt", "CXXForRangeStmt", "SwitchStmt", "CXXTryStmt", "GotoStmt", "LabelStmt",
+                 "BreakStmt", "ContinueStmt", "IfStmt"):
+            if any(z["k"] == "ReturnStmt" for z in walk(s)):
+                self.und(s, "a return inside a statement that is not interpreted")
+            st = dict(st)
+            for z in walk(s):
+                if match.binop(z, ("=",)) and self.loc(match.binop(z, ("=",))[1]) and self.loc(match.binop(z, ("=",))[1])[0] == "var":
+                    st[self.loc(match.binop(z, ("=",))[1])] = ("fresh",)
+            self.havoc(st, s)
+            return nxt(st)
+        # expression statement
+        st = dict(st)
+        self.val(st, s)
+        return nxt(st)
+
+
+def _show(v):
+    if v[0] == "mine":
+        return "the tree's own previous %s" % v[1]
+    if v[0] == "other":
+        return "the source's %s" % v[1]
+    if v[0] == "default":
+        return "a default-constructed value"
+    return "a value computed afresh"
+
+
+_WHY = ("every search, insert and erase orders keys with key_less_ and every node is obtained from allocator_; the copied nodes "
+        "were arranged by the source's objects")
+
+
+def check_state_transfer(ck, tu, tree):
+    rec = tu.record(BT)
+    if rec is None or not rec.get("fields"):
+        raise ir.AnalysisBroken("record layout of %s not available" % BT)
+    fields = [f["name"] for f in rec["fields"]]
+    members = [f for f in tree.fns if f.record == BT]
+    memo = {}
+    transfer = [f for f in members if f.name in _TRANSFER_FNS or f.kind == "ctor"]
+    writers = {}
+    for f in members:
+        if f in transfer or f.kind == "dtor":
+            continue
+        for z in f.nodes():
+            if _is_bt_field(z) and not _access_is_read(f, z):
+                writers.setdefault(z["member"], set()).add(f.name)
+    config = set(x for x in fields if x not in writers)
+    copy_ctor = [f for f in members if _is_copy_ctor(f)]
+    assign = [f for f in members if f.name == "operator=" and len(f.params) == 1]
+    swaps = [f for f in members if f.name == "swap" and len(f.params) == 1]
+    if len(copy_ctor) != 1 or len(assign) != 1 or len(swaps) != 1:
+        raise ir.AnalysisBroken("BTree<%s>: expected one copy constructor, one operator= and one swap (found %d, %d, %d)"
+                                % (tree.label, len(copy_ctor), len(assign), len(swaps)))
+    for fn, kind in ((copy_ctor[0], "copy"), (assign[0], "assign"), (swaps[0], "swap")):
+        T = _Transfer(tree, fn, fields, memo)
+        T.config = config
+        st = {"path": []}
+        for x in fields:
+            st[("this", x)] = ("default",) if kind == "copy" else ("mine", x)
+            st[("other", x)] = ("other", x)
+        for i in fn.inits:
+            if i.get("field") in fields and i.get("e") is not None:
+                v = T.val(st, i["e"])
+                st[("this", i["field"])] = v if (v[0] == "other" or i.get("written")) else ("default",)
+            elif i.get("field") is None and i.get("e") is not None:
+                T.und(i["e"], "a delegating or base initialiser")
+        T.run(list(kids(fn.body)) if fn.body else [], st, lambda s: T.exits.append(s))
+        paths = [s for s in T.exits if not s.get("alias")]
+        if not paths:
+            raise dtable.Undecidable("%s: no path through %s of BTree reaches its end" % (fn.loc, fn.name))
+        what = {"copy": "copy construction `BTree a(b)`", "assign": "the assignment `a = b`", "swap": "`a.swap(b)`"}[kind]
+        need = sorted(config) if kind != "swap" else fields
+        for x in need:
+            bad = None
+            for s in paths:
+                got = s.get(("this", x), ("fresh",))
+                if got != ("other", x):
+                    bad = (s, "a.%s is %s" % (x, _show(got)))
+                    break
+                if kind == "swap" and s.get(("other", x)) != ("mine", x):
+                    bad = (s, "b.%s is %s instead of a's previous %s" % (x, _show(s.get(("other", x), ("fresh",))), x))
+                    break
+            sig = "%s:%s" % (kind, x)
+            if bad:
+                s, txt = bad
+                if x in config and kind != "swap" and bad[0].get(("this", x), ("fresh",))[0] == "fresh":
+                    raise dtable.Undecidable("%s: cannot tell what %s holds after %s" % (fn.loc, x, what))
+                path = (" on the path " + " && ".join(s["path"])) if s["path"] else ""
+                ex = ""
+                if x == "key_less_" or (x in config and "less" in x):
+                    ex = (" Counterexample: key order with run-time state (ascending/descending flag), a ascending and empty, b descending "
+                          "holding {3,2,1}: afterwards a holds b's nodes [3,2,1] but a.find(1), a.lower_bound(2) and a.insert(0) descend with "
+                          "the ascending order and miss / misplace; std::set carries the comparator along.")
+                ck.violation("STATE-TRANSFER", fn.qname, sig,
+                             "after %s%s, %s; it must be the source's %s (%s).%s"
+                             % (what, path, txt, x, "no other member can ever repair it: only constructors, operator= and swap write it; " + _WHY
+                                if x in config else "swap exchanges the complete state", ex), fn.loc)
+            else:
+                ck.ok("STATE-TRANSFER", tree.where(fn, sig), "%d path(s): %s taken from the source%s"
+                      % (len(paths), x, " and handed back" if kind == "swap" else ""))
+        ck.states += len(paths)
+    if not config:
+        raise dtable.Undecidable("BTree<%s>: no configuration state recognised (every field has a writer outside constructors, "
+                                 "operator= and swap: %s)" % (tree.label, writers))
+
+
 # ------------------------------------------------------------------ driver
 def run(ck):
     ck.explanation = (
@@ -1862,6 +2250,7 @@ def run(ck):
                 ck.guarded(lambda: btprim.check_erase(ck, tu, t, cfg))
                 ck.guarded(lambda: btprim.check_bulk_load(ck, tu, t, cfg))
             ck.guarded(lambda: check_iter_steps(ck, t))
+            ck.guarded(lambda: check_state_transfer(ck, tu, t))
         ck.guarded(lambda: check_frontends(ck, tu))
     m = n_trees
     ck.floor("KEYPRED-TABLE", 4 * m)
@@ -1877,5 +2266,6 @@ def run(ck):
     ck.floor("ERASE-EFFECT", 2 * m)
     ck.floor("BULK-LOAD-SHAPE", m // 2)      # two per small_traits tree, half of the trees
     ck.floor("ITER-STEP", 16 * m)
+    ck.floor("STATE-TRANSFER", 10 * m)        # key_less_, allocator_ for copy and assignment, six fields for swap
     ck.floor("FRONTEND-FLAGS", 12 * (m // 8))
     ck.floor("FRONTEND-FORWARD", 4 * 40 * (m // 8))
